@@ -22,10 +22,10 @@ def component_error_message(component_path: List[str]) -> Generator[None, None, 
 
         # Access the exception's message, see https://stackoverflow.com/a/75549200/9788634
         if len(err.args) and err.args[0] is not None:
-            if not components:
-                orig_msg = str(err.args[0])
-            else:
-                orig_msg = str(err.args[0]).split("\n", 1)[-1]
+            orig_msg = str(err.args[0])
+            # Strip the prefix that was added when the error passed through a nested component
+            if orig_msg.startswith("An error occured while rendering components "):
+                orig_msg = orig_msg.split("\n", 1)[-1]
         else:
             orig_msg = str(err)
 
